@@ -497,6 +497,9 @@ func ParsePADT(data []byte) (sessionID uint16, tags []Tag, err error) {
 	}
 
 	if len(data) > 6 {
+		if 6+int(hdr.Length) > len(data) {
+			return 0, nil, fmt.Errorf("PADT length exceeds data")
+		}
 		tags, err = ParseTags(data[6 : 6+int(hdr.Length)])
 		if err != nil {
 			return 0, nil, err
